@@ -26,7 +26,13 @@
    Peek = 1 models the wrapper of a TLS-inspector listener serving a plain-text client (mtls.Conn): the first byte
    of the connection is peeked off the wire before the read loop starts and is handed out in front of the data
    of the first Read - also when that Read ends with the deadline error.
-     "ShortCountAfterTimeout" a read that ends with the deadline error does not account for the bytes it took *)
+     "ShortCountAfterTimeout" a read that ends with the deadline error does not account for the bytes it took
+   Capacity of the read buffer (connection.go startReadLoop / netpoll: "shrink the read buffer" after a timed-out
+   read): the buffer grows while frames larger than its default size pass (`prior` = size class of a frame that was
+   delivered and fully consumed BEFORE the behaviour starts: 0 small, 1 larger than the default buffer, 2 several
+   times larger; `cap` = capacity class now). A read that times out without data gives a grown buffer back ONLY IF
+   IT IS EMPTY: capacity may change, content may not.
+     "ShrinkDropsBufferedBytes" the shrink after a timed-out read frees a buffer that still holds unconsumed bytes *)
 EXTENDS Integers, Sequences, FiniteSets, TLC, Json
 
 CONSTANTS MaxFrames,  \* frames per stream: 1..MaxFrames
@@ -35,6 +41,7 @@ CONSTANTS MaxFrames,  \* frames per stream: 1..MaxFrames
           Preface,    \* length of the connection preface (0 = the protocol has none)
           Peek,       \* bytes the transport wrapper peeks off the wire before the first Read (0 | 1)
           MaxTimeouts,\* read deadlines that may expire during one behaviour
+          Priors,     \* size classes of the frame consumed before the behaviour starts (buffer capacity history)
           Defects
 
 VARIABLES frames,  \* sequence of frame lengths: the input stream
@@ -46,8 +53,10 @@ VARIABLES frames,  \* sequence of frame lengths: the input stream
           held,    \* bytes the transport took off the wire but has not yet appended to the read buffer
           lost,    \* bytes taken off the wire that will never reach the read buffer (must stay 0)
           pauses,  \* history: offsets (bytes sent so far) at which a read deadline expired
+          prior,   \* size class of the frame that passed before (constant during a behaviour)
+          cap,     \* capacity class of the read buffer: 0 = default size, > 0 = grown
           cuts     \* history: offsets at which the stream was cut (for case emission)
-vars == <<frames, fed, cons, out, pc, pre, held, lost, pauses, cuts>>
+vars == <<frames, fed, cons, out, pc, pre, held, lost, pauses, prior, cap, cuts>>
 
 (* ---------------- stream geometry (shared with the trace spec) ---------------- *)
 RECURSIVE Off(_, _)
@@ -75,6 +84,7 @@ Init == /\ \E n \in 1..MaxFrames : frames \in [1..n -> Lens]
         /\ fed = 0 /\ cons = 0 /\ out = <<>> /\ pc = "read" /\ cuts = <<>>
         /\ pre = IF Preface > 0 THEN "pending" ELSE "done"
         /\ held = 0 /\ lost = 0 /\ pauses = <<>>
+        /\ prior \in Priors /\ cap = prior
 
 Sent == fed + held + lost                                 \* bytes the peer has written so far
 StreamLen == Preface + Total(frames)
@@ -86,20 +96,30 @@ Feed(n) == /\ pc = "read" /\ Sent + n <= StreamLen
            /\ IF Peek = 1 /\ Sent = 0 /\ n = 1
               THEN /\ held' = 1 /\ fed' = fed /\ pc' = "read"     \* peeked; the first Read waits for more
               ELSE /\ fed' = fed + held + n /\ held' = 0 /\ pc' = "dispatch"
-           /\ UNCHANGED <<frames, cons, out, pre, lost, pauses>>
+           /\ UNCHANGED <<frames, cons, out, pre, lost, pauses, prior, cap>>
 
 (* the read deadline expires while the read loop waits for the peer *)
+Buffered == fed - cons
+
 Timeout == /\ pc = "read" /\ Len(pauses) < MaxTimeouts /\ Sent < StreamLen
            /\ ~(Peek = 1 /\ Sent = 0)                  \* no deadline is armed while the inspector peeks
            /\ pauses' = Append(pauses, Sent)
-           /\ IF "ShortCountAfterTimeout" \in Defects
-              THEN fed' = fed /\ lost' = lost + held
-              ELSE fed' = fed + held /\ lost' = lost
+           /\ IF held > 0
+              THEN \* the timed-out read still delivers what the transport held: handled like any read
+                   /\ IF "ShortCountAfterTimeout" \in Defects
+                      THEN fed' = fed /\ lost' = lost + held
+                      ELSE fed' = fed + held /\ lost' = lost
+                   /\ UNCHANGED <<cons, cap>>
+              ELSE \* nothing read: the read loop may give a grown buffer back
+                   /\ fed' = fed
+                   /\ IF cap > 0 /\ Buffered = 0
+                      THEN cap' = 0 /\ UNCHANGED <<cons, lost>>                       \* legitimate shrink
+                      ELSE IF cap > 0 /\ "ShrinkDropsBufferedBytes" \in Defects
+                      THEN cap' = 0 /\ cons' = fed /\ lost' = lost + Buffered        \* content freed with the buffer
+                      ELSE UNCHANGED <<cons, lost, cap>>
            /\ held' = 0
            /\ pc' = IF fed' > fed THEN "dispatch" ELSE "read"
-           /\ UNCHANGED <<frames, cons, out, pre, cuts>>
-
-Buffered == fed - cons
+           /\ UNCHANGED <<frames, out, pre, prior, cuts>>
 
 Decode == /\ pc = "dispatch"
           /\ LET i == IF lost > 0 THEN 0 ELSE FrameAt(frames, FCons) IN   \* after a loss the buffer is not the stream
@@ -120,7 +140,7 @@ Decode == /\ pc = "dispatch"
                      ELSE /\ out' = Append(out, [start |-> FCons, len |-> L])
                           /\ cons' = cons + (IF "DrainHeader" \in Defects THEN H ELSE L)
                           /\ pc' = "dispatch" /\ pre' = pre
-          /\ UNCHANGED <<frames, fed, cuts, held, lost, pauses>>
+          /\ UNCHANGED <<frames, fed, cuts, held, lost, pauses, prior, cap>>
 
 Next == Decode \/ Timeout \/ \E n \in 1..StreamLen : Feed(n)
 Spec == Init /\ [][Next]_vars
@@ -132,10 +152,10 @@ Prompt      == pc = "read" => PromptOK(frames, FFed, out)
 Consumed    == pc = "read" => IF fed < Preface THEN cons = 0 ELSE ConsumedOK(frames, FFed, FCons)
 PrefaceOnce == (pre = "pending" => cons = 0 /\ out = <<>>) /\ (pre = "done" => cons >= Preface)
 NoError     == pc # "error"
-NoByteLost  == lost = 0 /\ held <= Peek
+NoByteLost  == lost = 0 /\ held <= Peek /\ lost + fed + held <= StreamLen
 \* segmentation independence: at the end of the stream the output is the input, whatever the cuts were
 SameForEveryCut == (pc = "read" /\ fed = StreamLen) => out = [i \in 1..Len(frames) |-> Range(frames, i)]
 
 (* one CASE per complete chunking of a frame vector *)
-EmitCase == (pc = "read" /\ fed = StreamLen) => PrintT(<<"CASE", ToJson([frames |-> frames, cuts |-> cuts, pre |-> Preface, pauses |-> pauses])>>)
+EmitCase == (pc = "read" /\ fed = StreamLen) => PrintT(<<"CASE", ToJson([frames |-> frames, cuts |-> cuts, pre |-> Preface, pauses |-> pauses, prior |-> prior])>>)
 ====
